@@ -102,7 +102,7 @@ func checkC08(env *Env) []Violation {
 		}
 		switch e.Kind {
 		case EvCounter, EvGauge, EvHVal, EvHDur:
-			if e.Kind == EvCounter && !env.isInternal(e.Name) && e.Seq < firstRet {
+			if e.Kind == EvCounter && !env.isInternalID(e.Name, e.Tags) && e.Seq < firstRet {
 				if l := counters.lookup(e.Name, e.Tags); l != nil {
 					sum[l.key] += e.I
 				}
